@@ -688,15 +688,15 @@ class GroupBy:
         self, arr: np.ndarray, orig_type, index: pd.Index
     ) -> pd.Series:
         if arr.dtype.kind == "M":
-            if isinstance(orig_type, pl.DataType):
-                series = pl.Series(arr, dtype=orig_type)
-                arrow = series.to_arrow()
-                # a null result (NaT) cannot be converted without a copy
-                arr = arrow.to_numpy(zero_copy_only=arrow.null_count == 0)
-                dtype = pd.ArrowDtype(arrow.type)
-            elif isinstance(orig_type, pa.DataType):
-                # arrow-backed input: keep the datetime64 array so that NaT becomes null
-                dtype = pd.ArrowDtype(orig_type)
+            if isinstance(orig_type, (pl.DataType, pa.DataType)):
+                # the numpy values are UTC instants: hand pandas an arrow array of the input's
+                # type (NaT -> null) instead of letting it read them as wall-clock times of the zone
+                if isinstance(orig_type, pl.DataType):
+                    arrow = pl.Series(arr, dtype=orig_type).to_arrow()
+                else:
+                    arrow = pa.array(arr, from_pandas=True).cast(orig_type)
+                arr = pd.arrays.ArrowExtensionArray(arrow)
+                dtype = None
             else:
                 arr = arr.view(int)
                 dtype = orig_type
